@@ -18,8 +18,8 @@ Inductive leaf :=
 | LProbe                          (* echo "?=$?"                   -> status 0 *)
 | LBreak (n : nat)                (* break n   (n = 1 rendered as plain `break`) *)
 | LContinue (n : nat)             (* continue n *)
-| LReturn (n : option nat)        (* return [n] *)
-| LExit (n : option nat)          (* exit [n] *)
+| LReturn (n : option Z)          (* return [n]    (any i32: return 300, return -- -2) *)
+| LExit (n : option Z)            (* exit [n]      (any integer: exit 256, exit -2) *)
 | LSet (o : sopt) (on : bool)     (* set -e / set +e / set -u / set -o pipefail ... *)
 | LCall (f : nat)                 (* fF   (call of shell function number F) *)
 | LAssign (s : option nat).       (* v=1  /  v=$(exit n) : assignment-only command, optionally with one
